@@ -9,3 +9,4 @@ import GPy.C20.Props
 import GPy.C06.Props
 import GPy.C01.Props
 import GPy.C04.Props
+import GPy.C12.Props
